@@ -166,14 +166,18 @@ class C03(Spec):
             for _ in range(n // 4):
                 cases.append(self.rand_world(rng, base, cap).case())
             b = Batch("c03-cap%d" % cap, cases, config="[network]\ncache_size = %d\ntimeout_seconds = 2\n" % cap,
-                      env={"VERIF_SIM_PORT_BASE": str(base)}, timeout=600, correspondence="jtp.Get/client.FetchURL == Jtp.get")
+                      env={"VERIF_SIM_PORT_BASE": str(base), "VERIF_CASE_TIMEOUT": "25", "VERIF_MAX_HANGS": "3"}, timeout=600, correspondence="jtp.Get/client.FetchURL == Jtp.get")
             b.parallel = False
             batches.append(b)
         runner.run_batches(self, scratch, binary, batches, report)
 
     def known_key(self, case, res):
-        # outcomes that differ only because a redirect chain longer than the budget was (partly) cached
-        if case.meta.get("chain", 0) > 20:
+        # the recorded finding is a difference between a warm and a cold cache on chains longer than the budget: the model
+        # reproduces what the implementation returned (results_equal_model) and only cache transparency fails.  Anything else on
+        # such worlds - a long chain that is followed to its end, a request log that differs - is a new violation.
+        orc = res.get("oracles") or {}
+        bad = [k for k, v in orc.items() if not v]
+        if case.meta.get("chain", 0) > 20 and bad == ["cache_transparent"] and res.get("panic") is None:
             return "C03/redirect-chain-longer-than-budget"
         return None
 
